@@ -128,8 +128,11 @@ fn total(case: &Case, rep: &mut Report) {
                 let task = &ex.threads[ti].tasks[k];
                 let scenario = task.input_digest(&case.fss);
                 rep.scenario_digests.insert(scenario);
-                if r.events.iter().any(|e| !e.fired.is_empty()) {
+                if r.events.iter().any(|e| !e.fired.is_empty()) || case.params.gb("baked_fault") {
                     rep.nontrivial.insert(scenario);
+                    if case.params.gb("baked_fault") {
+                        *rep.fired.entry("token_lost_duplicated_or_swapped".into()).or_insert(0) += 1;
+                    }
                 }
                 if !r.subject {
                     continue;
